@@ -88,7 +88,11 @@ func runC11Sequential(c *harness.Ctx) {
 	}
 	m := &rfModel{ttl: ttl}
 	nvals := 2 + t.Draw("nvals", 5)
-	n := 1 + t.Draw("nops", 24)
+	maxOps := 24
+	if c.Tier == "thorough" {
+		maxOps = 60
+	}
+	n := 1 + t.Draw("nops", maxOps)
 	now := time.Duration(1 << 40)
 	var hist []string
 	for i := 0; i < n; i++ {
